@@ -42,6 +42,7 @@ impl<T: Deref<Target = str>> BaseIri<T> {
         iri: R,
         buf: &'a mut String,
     ) -> R::OutputAbs {
+        buf.clear();
         R::output_abs(self.0.resolve_into(iri.borrow(), buf).map(|()| &buf[..]))
     }
 
@@ -98,6 +99,7 @@ impl<T: Deref<Target = str>> BaseIriRef<T> {
         iri: R,
         buf: &'a mut String,
     ) -> R::OutputRel {
+        buf.clear();
         R::output_rel(self.0.resolve_into(iri.borrow(), buf).map(|()| &buf[..]))
     }
 
